@@ -1,4 +1,5 @@
 pub mod canon;
+pub mod deque;
 pub mod cfg;
 pub mod world;
 mod world2;
